@@ -39,7 +39,25 @@ func randCase(r *rng, s string) string {
 // nearMarker is something that must NOT be taken for a marker.
 func nearMarker(r *rng) string {
 	m := pick(r, c20Markers)
-	switch r.n(8) {
+	switch r.n(10) {
+	case 9: // bit 5 of a non-letter byte flipped ('<' -> 0x1c, '/' -> 0x0f): survives a naive "|0x20" case fold
+		b := []byte(m)
+		i := 0
+		if m[1] == '/' && r.chance(1, 2) {
+			i = 1
+		}
+		b[i] ^= 0x20
+		return string(b)
+	case 8: // one bit of one marker byte flipped (bit 5 of a letter would only change its case)
+		b := []byte(m)
+		i := r.n(len(b))
+		bit := r.n(8)
+		isLetter := (b[i]|0x20) >= 'a' && (b[i]|0x20) <= 'z'
+		if isLetter && bit == 5 {
+			bit = 6
+		}
+		b[i] ^= 1 << bit
+		return string(b)
 	case 0:
 		return m[:len(m)-1]
 	case 1:
